@@ -468,8 +468,13 @@ func backward(v ssa.Value, through func(ssa.Value) bool) map[ssa.Value]bool {
 			rec(y.X)
 		case *ssa.IndexAddr:
 			rec(y.X)
+			rec(y.Index)
 		case *ssa.Index:
 			rec(y.X)
+			rec(y.Index)
+		case *ssa.Lookup:
+			rec(y.X)
+			rec(y.Index)
 		}
 	}
 	rec(v)
